@@ -32,57 +32,232 @@ def rule_sql(r):
     return bg.sql_top(r["ast"]) if r.get("top_unparenthesised") else bg.sql(r["ast"])
 
 
+def src_names(case):
+    """Names of the source datasets (the linker's input_table_aliases, or the values of a supplied source dataset column)."""
+    return case.get("src") or ALIASES[: len(case["tables"])]
+
+
+def idcol(case):
+    return case.get("idcol") or "unique_id"
+
+
+def sdcol(case):
+    return case.get("sdcol") or "source_dataset"
+
+
+def label_type(case):
+    return "str" if case.get("label_dtype") == "str" else "int"
+
+
+def conj_columns(ast):
+    """Columns of a rule that is l.c = r.c or a conjunction of such atoms (expressible as block_on(...)); else None."""
+    if ast[0] == "eq" and ast[1] == ast[2]:
+        return [ast[1]]
+    if ast[0] == "and":
+        a, b = conj_columns(ast[1]), conj_columns(ast[2])
+        return None if a is None or b is None else a + b
+    return None
+
+
+def rule_arg(r, engine):
+    """The blocking rule in the form the case asks for: SQL string (default), dict with a declared dialect, salted dict, block_on()."""
+    form = r.get("form") or "str"
+    if form == "block_on" and conj_columns(r["ast"]):
+        from splink import block_on
+
+        return block_on(*conj_columns(r["ast"]))
+    if form == "dict":
+        return {"blocking_rule": rule_sql(r), "sql_dialect": engine}
+    if form == "salted":
+        return {"blocking_rule": rule_sql(r), "salting_partitions": 2}
+    return rule_sql(r)
+
+
+def input_frames(case):
+    """The input tables as typed frames: one per dataset, or ONE pre-concatenated frame carrying its own source dataset column;
+    optionally every table lists the same columns in a different order."""
+    from harness import impl
+
+    idt = "str" if case["idtype"] == "str" else "int"
+    ic, sc = idcol(case), sdcol(case)
+    base = [(ic, idt), ("a", "str"), ("b", "str"), ("c", "int"), (LABEL, label_type(case))]
+    rng = random.Random(case.get("shuffle", 0))
+    prng = random.Random(case["colperm"]) if case.get("colperm") is not None else None
+
+    def conv(r):
+        return {ic: r["unique_id"], "a": r["a"], "b": r["b"], "c": r["c"], LABEL: r[LABEL]}
+
+    if case.get("layout") == "preconcat":
+        src = src_names(case)
+        rows = [dict(conv(r), **{sc: src[i]}) for i, t in enumerate(case["tables"]) for r in t]
+        rng.shuffle(rows)
+        cols = base + [(sc, "str")]
+        if prng:
+            prng.shuffle(cols)
+        return [impl.typed_frame(rows, dict(cols))]
+    frames = []
+    for rows in case["tables"]:
+        rows = [conv(r) for r in rows]
+        rng.shuffle(rows)
+        cols = list(base)
+        if prng:
+            prng.shuffle(cols)
+        frames.append(impl.typed_frame(rows, dict(cols)))
+    return frames
+
+
 def build_linker(case: dict, api):
     import splink.comparison_library as cl
     from splink import Linker, SettingsCreator
 
-    from harness import impl
-
-    idt = "str" if case["idtype"] == "str" else "int"
-    types = {"unique_id": idt, "a": "str", "b": "str", "c": "int", LABEL: "int"}
-    frames = []
-    rng = random.Random(case.get("shuffle", 0))
-    for rows in case["tables"]:
-        rows = list(rows)
-        rng.shuffle(rows)
-        frames.append(impl.typed_frame([{k: r[k] for k in types} for r in rows], types))
-    comps = [cl.ExactMatch(c["col"]).configure(m_probabilities=[c["m"], 1 - c["m"]], u_probabilities=[c["u"], 1 - c["u"]]) for c in case["comparisons"]]
+    frames = input_frames(case)
+    comps = []
+    for c in case["comparisons"]:
+        kw = {"m_probabilities": [c["m"], 1 - c["m"]], "u_probabilities": [c["u"], 1 - c["u"]]}
+        if c.get("tf"):
+            kw["term_frequency_adjustments"] = True
+        comps.append(cl.ExactMatch(c["col"]).configure(**kw))
+    extra = {}
+    if case.get("idcol"):
+        extra["unique_id_column_name"] = case["idcol"]
+    if case.get("sdcol"):
+        extra["source_dataset_column_name"] = case["sdcol"]
+    if case.get("retain_cols") is not None:
+        extra["additional_columns_to_retain"] = list(case["retain_cols"])
+    if case.get("retain_matching") is False:
+        extra["retain_matching_columns"] = False
     settings = SettingsCreator(
         link_type=case["link_type"],
         comparisons=comps,
-        blocking_rules_to_generate_predictions=[rule_sql(r) for r in case["rules"]],
+        blocking_rules_to_generate_predictions=[rule_arg(r, case["engine"]) for r in case["rules"]],
         probability_two_random_records_match=case["prior"],
-        retain_intermediate_calculation_columns=False,
+        retain_intermediate_calculation_columns=bool(case.get("retain_inter", False)),
+        **extra,
     )
-    k = len(frames)
-    if k == 1:
-        return Linker(frames[0], settings, api)
-    return Linker(frames, settings, api, input_table_aliases=ALIASES[:k])
+    k = len(case["tables"])
+    if case.get("input_form") == "names":
+        # the inputs are NAMES of tables registered in the database beforehand; the aliases (= source dataset names) differ from them
+        names = [f"raw_input_{chr(122 - i)}" for i in range(len(frames))]
+        for f, n in zip(frames, names):
+            api.register_table(f, n)
+        inputs = names
+    else:
+        inputs = frames
+    if len(inputs) == 1:
+        if case.get("input_form") == "names":
+            return Linker(inputs[0], settings, api, input_table_aliases=src_names(case)[0]) if k == 1 else Linker(inputs[0], settings, api)
+        return Linker(inputs[0], settings, api)
+    return Linker(inputs, settings, api, input_table_aliases=src_names(case))
 
 
-def labels_frame(case):
+def labels_frame(case, labels=None):
+    """The pairwise labels as a frame: canonical column order, shuffled columns, extra columns (single and _l/_r paired), or
+    (dedupe) with source dataset columns that the job does not need; integer scores when the case asks for them."""
     from harness import impl
 
     idt = "str" if case["idtype"] == "str" else "int"
     multi = len(case["tables"]) > 1
+    ic, sc = idcol(case), sdcol(case)
+    src = src_names(case)
+    form = case.get("label_cols") or "canonical"
+    with_sd = multi or form == "with_sd"
+    labels = case["labels"] if labels is None else labels
+    as_int = case.get("score_dtype") == "int" and all(l[2] in (0.0, 1.0) for l in labels)
     rows = []
-    for (tl, ul), (tr, ur), s in case["labels"]:
-        d = {"unique_id_l": ul, "unique_id_r": ur, "clerical_match_score": s}
-        if multi:
-            d["source_dataset_l"], d["source_dataset_r"] = ALIASES[tl], ALIASES[tr]
+    for n, ((tl, ul), (tr, ur), s) in enumerate(labels):
+        d = {f"{ic}_l": ul, f"{ic}_r": ur, "clerical_match_score": int(s) if as_int else s}
+        if with_sd:
+            d[f"{sc}_l"], d[f"{sc}_r"] = (src[tl], src[tr]) if multi else ("the_only_table", "the_only_table")
+        if form == "extra":
+            d["note"] = None if n % 3 == 0 else f"clerk {n % 2}"
+            d["seen_l"], d["seen_r"] = n, 100 + n
         rows.append(d)
-    types = ({"source_dataset_l": "str"} if multi else {}) | {"unique_id_l": idt} | ({"source_dataset_r": "str"} if multi else {}) | {"unique_id_r": idt, "clerical_match_score": "float"}
-    return impl.typed_frame(rows, types)
+    cols = ([(f"{sc}_l", "str")] if with_sd else []) + [(f"{ic}_l", idt)] + ([(f"{sc}_r", "str")] if with_sd else []) + [(f"{ic}_r", idt), ("clerical_match_score", "int" if as_int else "float")]
+    if form == "extra":
+        cols += [("note", "str"), ("seen_l", "int"), ("seen_r", "int")]
+    if form in ("reordered", "extra"):
+        random.Random(case.get("shuffle", 0) + 1).shuffle(cols)
+    return impl.typed_frame(rows, dict(cols))
 
 
-def _ids(r, multi):
-    if multi:
-        return [r["source_dataset_l"], r["unique_id_l"]], [r["source_dataset_r"], r["unique_id_r"]]
-    return [ALIASES[0], r["unique_id_l"]], [ALIASES[0], r["unique_id_r"]]
+def decoy_labels(case):
+    """Other labels for the same job (scores mirrored, every second label dropped): what a labels table held BEFORE it was replaced."""
+    out = [[l[0], l[1], 1.0 - l[2]] for n, l in enumerate(case["labels"]) if n % 2 == 0]
+    return out or [[l[0], l[1], 1.0 - l[2]] for l in case["labels"]]
+
+
+LABELS_NAME = "my_clerical_labels"
+
+
+def labels_arg(case, linker, labels=None, overwrite=False):
+    """Registers the labels and returns what the caller hands to the evaluation functions: the SplinkDataFrame of
+    register_labels_table, its physical name, the name of a table registered with register_table, or the name of a table created in the
+    database without Splink."""
+    form = case.get("label_form") or "sdf"
+    df = labels_frame(case, labels)
+    if form == "named":
+        linker.table_management.register_table(df, LABELS_NAME, overwrite=overwrite)
+        return LABELS_NAME
+    if form == "db_native":
+        api = linker._db_api
+        if case["engine"] == "duckdb":
+            api._con.register("labels_pandas_view", df)
+            api._con.execute(f"create or replace table {LABELS_NAME} as select * from labels_pandas_view")
+        else:
+            df.to_sql(LABELS_NAME, api.con, index=False, if_exists="replace")
+        return LABELS_NAME
+    lt = linker.table_management.register_labels_table(df, overwrite=overwrite)
+    return lt.physical_name if form == "physical_name" else lt
+
+
+def _ids(r, case):
+    ic = idcol(case)
+    if len(case["tables"]) > 1:
+        sc = sdcol(case)
+        return [r[f"{sc}_l"], r[f"{ic}_l"]], [r[f"{sc}_r"], r[f"{ic}_r"]]
+    s0 = src_names(case)[0]
+    return [s0, r[f"{ic}_l"]], [s0, r[f"{ic}_r"]]
 
 
 def _f(x):
     return None if x is None or (isinstance(x, float) and x != x) else float(x)
+
+
+def label_codes(case):
+    """Label values -> integers (the model compares labels only for equality)."""
+    vals = sorted({row[LABEL] for t in case["tables"] for row in t if row[LABEL] is not None}, key=lambda v: (str(type(v)), v))
+    return {v: i for i, v in enumerate(vals)}
+
+
+def call_kwargs(case):
+    """Keyword arguments of the public calls; an argument named in case['omit'] is NOT passed (its documented default applies)."""
+    omit = set(case.get("omit") or [])
+    tk = {"output_type": "table"}
+    if "threshold" not in omit:
+        tk["threshold_match_probability"] = case["threshold"]
+    if "round" not in omit:
+        tk["match_weight_round_to_nearest"] = case["round"]
+    if case["mode"] == "column" and "opt" not in omit:
+        tk["positives_not_captured_by_blocking_rules_scored_as_zero"] = case["opt"]
+    ek = {}
+    if "err_flags" not in omit:
+        ek["include_false_positives"], ek["include_false_negatives"] = case["err_fp"], case["err_fn"]
+    if "err_threshold" not in omit:
+        ek["threshold_match_probability"] = case["err_threshold"]
+    return tk, ek
+
+
+def chart_rows(chart):
+    """The data records embedded in a chart returned by the evaluation functions (None when they cannot be located)."""
+    d = chart.to_dict() if hasattr(chart, "to_dict") else chart
+    if isinstance(d, dict):
+        v = (d.get("data") or {}).get("values")
+        if isinstance(v, list):
+            return v
+        name = (d.get("data") or {}).get("name")
+        if name and isinstance(d.get("datasets"), dict) and name in d["datasets"]:
+            return d["datasets"][name]
+    return None
 
 
 def run_impl(case: dict) -> dict:
@@ -92,52 +267,102 @@ def run_impl(case: dict) -> dict:
 
     from harness import impl
 
-    multi = len(case["tables"]) > 1
     out = {}
-    thr, rnd, ethr = case["threshold"], case["round"], case["err_threshold"]
+    tk, ek = call_kwargs(case)
+    sess = case.get("session")
+    table = case["mode"] == "table"
 
     def fresh():
         return build_linker(case, impl.make_api(case["engine"], threads=2))
 
-    if case["mode"] == "table":
-        # 1. the scored labels the truth table is computed from (trace; also the model's input)
-        linker = fresh()
+    # 1. the scored labels the truth table is computed from (trace; also the model's input) - always on a linker of its own
+    linker = fresh()
+    if table:
         lt = linker.table_management.register_labels_table(labels_frame(case))
         pipeline = CTEPipeline()
         nodes = compute_df_concat_with_tf(linker, pipeline)
         pipeline = CTEPipeline([nodes])
         pipeline.enqueue_list_of_sqls(accuracy.predictions_from_sample_of_pairwise_labels_sql(linker, lt.physical_name))
         rows = linker._db_api.sql_pipeline_to_splink_dataframe(pipeline).as_record_dict()
-        out["scored"] = [{"l": _ids(r, multi)[0], "r": _ids(r, multi)[1], "score": _f(r["clerical_match_score"]), "w": _f(r["match_weight"]),
+        out["scored"] = [{"l": _ids(r, case)[0], "r": _ids(r, case)[1], "score": _f(r["clerical_match_score"]), "w": _f(r["match_weight"]),
                           "p": _f(r["match_probability"]), "found": bool(r["found_by_blocking_rules"])} for r in rows]
-        # 2. public entry points
-        linker = fresh()
-        lt = linker.table_management.register_labels_table(labels_frame(case))
-        t = linker.evaluation.accuracy_analysis_from_labels_table(lt, threshold_match_probability=thr, match_weight_round_to_nearest=rnd, output_type="table")
-        out["truth"] = [{k: _f(v) for k, v in r.items()} for r in t.as_record_dict()]
-        linker = fresh()
-        lt = linker.table_management.register_labels_table(labels_frame(case))
-        e = linker.evaluation.prediction_errors_from_labels_table(lt, include_false_positives=case["err_fp"], include_false_negatives=case["err_fn"], threshold_match_probability=ethr)
-        out["errors"] = [{"l": _ids(r, multi)[0], "r": _ids(r, multi)[1], "score": _f(r["clerical_match_score"]), "w": _f(r["match_weight"]), "p": _f(r["match_probability"]),
-                          "found": bool(r["found_by_blocking_rules"]), "status": r["truth_status"]} for r in e.as_record_dict()]
     else:
-        linker = fresh()
         rows = accuracy._predict_from_label_column_sql(linker, LABEL).as_record_dict()
         out["newkey"] = len(linker._settings_obj._blocking_rules_to_generate_predictions)
+        codes = label_codes(case)
 
         def lab(v):
-            return None if v is None or v != v else int(v)
+            return None if v is None or v != v else codes[v if label_type(case) == "str" else int(v)]
 
-        out["scored"] = [{"l": _ids(r, multi)[0], "r": _ids(r, multi)[1], "ll": lab(r[LABEL + "_l"]), "lr": lab(r[LABEL + "_r"]), "mk": int(r["match_key"]),
+        # (.get: when the real code loses the label columns the public calls below are the ones that must raise, not this trace)
+        out["scored"] = [{"l": _ids(r, case)[0], "r": _ids(r, case)[1], "ll": lab(r.get(LABEL + "_l")), "lr": lab(r.get(LABEL + "_r")), "mk": int(r["match_key"]),
                           "w": _f(r["match_weight"]), "p": _f(r["match_probability"])} for r in rows]
-        linker = fresh()
-        t = linker.evaluation.accuracy_analysis_from_labels_column(LABEL, threshold_match_probability=thr, match_weight_round_to_nearest=rnd, output_type="table",
-                                                                   positives_not_captured_by_blocking_rules_scored_as_zero=case["opt"])
-        out["truth"] = [{k: _f(v) for k, v in r.items()} for r in t.as_record_dict()]
-        linker = fresh()
-        e = linker.evaluation.prediction_errors_from_labels_column(LABEL, include_false_positives=case["err_fp"], include_false_negatives=case["err_fn"], threshold_match_probability=ethr)
-        out["errors"] = [{"l": _ids(r, multi)[0], "r": _ids(r, multi)[1], "score": _f(r["clerical_match_score"]), "w": _f(r["match_weight"]), "p": _f(r["match_probability"]),
-                          "found": bool(r["found_by_blocking_rules"]), "status": None} for r in e.as_record_dict()]
+
+    # 2. public entry points: a fresh linker per call, or (session) every call on ONE linker / database API
+    the_linker = fresh() if sess else None
+    arg_cache = {}
+
+    def get():
+        return the_linker or fresh()
+
+    def larg(lk):
+        if not sess:
+            return labels_arg(case, lk)
+        if "arg" not in arg_cache:
+            arg_cache["arg"] = labels_arg(case, lk, overwrite=bool(sess.get("reregister")))
+        return arg_cache["arg"]
+
+    def truth(lk, **over):
+        kw = dict(tk, **over)
+        if table:
+            t = lk.evaluation.accuracy_analysis_from_labels_table(larg(lk), **kw)
+        else:
+            t = lk.evaluation.accuracy_analysis_from_labels_column(LABEL, **kw)
+        return t
+
+    def truth_rows(lk):
+        return [{k: _f(v) for k, v in r.items()} for r in truth(lk).as_record_dict()]
+
+    def errors(lk):
+        if table:
+            e = lk.evaluation.prediction_errors_from_labels_table(larg(lk), **ek)
+        else:
+            e = lk.evaluation.prediction_errors_from_labels_column(LABEL, **ek)
+        return [{"l": _ids(r, case)[0], "r": _ids(r, case)[1], "score": _f(r["clerical_match_score"]), "w": _f(r["match_weight"]), "p": _f(r["match_probability"]),
+                 "found": bool(r["found_by_blocking_rules"]), "status": r["truth_status"] if table else None} for r in e.as_record_dict()]
+
+    if sess:
+        lk = the_linker
+        if sess.get("reregister") and table:
+            # the labels table first holds OTHER labels and is evaluated with the same arguments; then it is replaced under its name
+            arg0 = labels_arg(case, lk, labels=decoy_labels(case))
+            lk.evaluation.accuracy_analysis_from_labels_table(arg0, **tk).as_record_dict()
+            lk.evaluation.prediction_errors_from_labels_table(arg0, **ek).as_record_dict()
+        for op in sess.get("pre") or []:
+            if op == "predict":
+                lk.inference.predict().as_record_dict()
+            elif op == "predict_thr":
+                lk.inference.predict(threshold_match_probability=0.9).as_record_dict()
+            elif op == "other_args":
+                truth(lk, threshold_match_probability=0.123, match_weight_round_to_nearest=3.0).as_record_dict()
+            elif op == "errors":
+                errors(lk)
+            elif op == "chart":
+                if truth(lk).as_record_dict():  # the chart functions need at least one row
+                    ct = sess.get("chart_type") or "roc"
+                    ckw = {"output_type": ct}
+                    if ct in ("accuracy", "threshold_selection"):
+                        ckw["add_metrics"] = ["f1", "phi", "specificity"]
+                    ch = chart_rows(truth(lk, **ckw))
+                    out["chart"] = None if ch is None else [{k: _f(r.get(k)) for k in ["truth_threshold"] + COUNT_COLS} for r in ch]
+            elif op == "tf":
+                lk.table_management.compute_tf_table(case["comparisons"][0]["col"])
+        out["truth"] = truth_rows(lk)
+        out["errors"] = errors(lk)
+        out["truth_again"] = truth_rows(lk)
+    else:
+        out["truth"] = truth_rows(get())
+        out["errors"] = errors(get())
     return out
 
 
@@ -146,7 +371,7 @@ run_impl_safe = core.safe(run_impl)
 
 # --------------------------------------------------------------------------- oracle (independent of Splink and of the Lean model)
 def records(case):
-    return bg.concat_records(case["tables"], ALIASES[: len(case["tables"])])
+    return bg.concat_records(case["tables"], src_names(case))
 
 
 def rid(rec):
@@ -160,7 +385,12 @@ def oracle_score(case, l, r):
         a, b = l[c["col"]], r[c["col"]]
         if a is None or b is None:
             continue
-        bf *= (c["m"] / c["u"]) if a == b else ((1 - c["m"]) / (1 - c["u"]))
+        if a == b and c.get("tf"):
+            # term-frequency adjusted exact match: m/u x u/tf, tf = share of the value among the non-NULL values of all input records
+            vals = [x[c["col"]] for x in records(case) if x[c["col"]] is not None]
+            bf *= c["m"] / (vals.count(a) / len(vals))
+        else:
+            bf *= (c["m"] / c["u"]) if a == b else ((1 - c["m"]) / (1 - c["u"]))
     return math.log2(bf), bf / (1 + bf)
 
 
@@ -190,8 +420,9 @@ def labelled_pairs(case):
     by_id = {rid(r): r for r in recs}
     out = []
     if case["mode"] == "table":
+        src = src_names(case)
         for (tl, ul), (tr, ur), s in case["labels"]:
-            a, b = by_id.get((ALIASES[tl], ul)), by_id.get((ALIASES[tr], ur))
+            a, b = by_id.get((src[tl], ul)), by_id.get((src[tr], ur))
             if a is None or b is None:
                 continue  # a label naming no record cannot be scored
             if not (bg.composite_key(a, multi) < bg.composite_key(b, multi)):
@@ -298,6 +529,11 @@ def verdict(case, r):
             if bad:
                 problems.append(("count differs from the direct recount", f"row t={t}: " + ", ".join(f"{k}={row[k]} expected {exp[k]}" for k in bad)))
                 break
+        # one row per distinct score of a scored pair (pairs scored -999 have no row of their own)
+        want_t = sorted({v for v in vals if v is not None and v > -998})
+        got_t = [row["truth_threshold"] for row in rows]
+        if len(want_t) != len(got_t) or any(abs(a - b) > tol_rel * max(1.0, abs(a)) for a, b in zip(want_t, got_t)):
+            problems.append(("truth table is not one row per distinct score", f"thresholds {got_t}, scores of the labelled pairs {want_t}"))
     # -- rates by definition, from the row's own counts
     for row in rows:
         d = definitions(row["tp"], row["tn"], row["fp"], row["fn"])
@@ -307,6 +543,19 @@ def verdict(case, r):
             k, got, want = bad[0]
             problems.append((f"rate {k} does not follow its definition", f"row t={row['truth_threshold']} counts TP={row['tp']} TN={row['tn']} FP={row['fp']} FN={row['fn']}: {k}={got}, definition gives {want}"))
             break
+    # -- the same call repeated on the same linker; the records a chart embeds
+    if "truth_again" in r:
+        again = sorted(r["truth_again"], key=lambda x: x["truth_threshold"])
+        same = len(again) == len(rows) and all((undefined(a.get(k)) and undefined(b.get(k))) or a.get(k) == b.get(k) for a, b in zip(rows, again) for k in ["truth_threshold"] + COUNT_COLS + RATE_COLS)
+        if not same:
+            problems.append(("the same call repeated on one linker gives another table", f"first {[[x[k] for k in ['truth_threshold'] + COUNT_COLS] for x in rows]} again {[[x[k] for k in ['truth_threshold'] + COUNT_COLS] for x in again]}"))
+    if r.get("chart") is not None:
+        key = lambda x: tuple(x[k] for k in ["truth_threshold"] + COUNT_COLS)
+        have = {key(x) for x in rows}
+        ct = (case.get("session") or {}).get("chart_type") or "roc"
+        stray = [key(x) for x in r["chart"] if key(x) not in have]
+        if stray or (ct != "threshold_selection" and len(r["chart"]) != len(rows)):
+            problems.append(("chart data are not the rows of the table", f"{ct}: {len(r['chart'])} records, table {len(rows)} rows, records not in the table {stray[:3]}"))
     # -- prediction errors
     et = case["err_threshold"]
     must, may = set(), set()
@@ -348,7 +597,9 @@ def model_requests(case, r):
     else:
         common["colrows"] = [[s["ll"], s["lr"], s["mk"], core.f2b(s["w"]), core.f2b(s["p"])] for s in r["scored"]]
         common["newkey"] = r["newkey"]
-    sizes = [len(t) for t in case["tables"]]
+    sizes = [len(t) for t in case["tables"] if t]  # the code counts rows per source dataset with GROUP BY: an empty table has no group
+    if case["link_type"] == "link_only" and len(sizes) < 2:
+        sizes = [len(t) for t in case["tables"]]  # fewer than two non-empty datasets: no pair at all (an empty dataset contributes 0 to every product)
     truth = dict(common, op="acc_truth", thr=core.f2b(case["threshold"]), round=None if case["round"] is None else core.f2b(case["round"]), f32=f32,
                  opt=True if case["mode"] == "table" else case["opt"], intdiv=case["engine"] == "sqlite",
                  counts=None if case["mode"] == "table" else [core.f2b(float(c)) for c in sizes], lt=case["link_type"])
@@ -360,9 +611,10 @@ def model_requests(case, r):
         by_id = {rid(x): x for x in recs}
         keys = [bg.composite_key(x, multi) for x in recs]
         lab_keys = []
+        src = src_names(case)
         for (tl, ul), (tr, ur), s in case["labels"]:
             for t_, u_ in ((tl, ul), (tr, ur)):
-                lab_keys.append(bg.composite_key({"source_dataset": ALIASES[t_], "unique_id": u_}, multi))
+                lab_keys.append(bg.composite_key({"source_dataset": src[t_], "unique_id": u_}, multi))
         order = sorted(set(keys) | set(lab_keys))
         rank = {k: i for i, k in enumerate(order)}
         present = [0] * len(order)
@@ -370,9 +622,9 @@ def model_requests(case, r):
             present[rank[k]] += 1
         labels = []
         for (tl, ul), (tr, ur), s in case["labels"]:
-            a, b = by_id.get((ALIASES[tl], ul)), by_id.get((ALIASES[tr], ur))
-            ka = rank[bg.composite_key({"source_dataset": ALIASES[tl], "unique_id": ul}, multi)]
-            kb = rank[bg.composite_key({"source_dataset": ALIASES[tr], "unique_id": ur}, multi)]
+            a, b = by_id.get((src[tl], ul)), by_id.get((src[tr], ur))
+            ka = rank[bg.composite_key({"source_dataset": src[tl], "unique_id": ul}, multi)]
+            kb = rank[bg.composite_key({"source_dataset": src[tr], "unique_id": ur}, multi)]
             e1 = [] if a is None or b is None else [bg.ev(ru["ast"], a, b) for ru in case["rules"]]
             e2 = [] if a is None or b is None else [bg.ev(ru["ast"], b, a) for ru in case["rules"]]
             labels.append([ka, kb, core.f2b(s), e1, e2])
@@ -420,10 +672,44 @@ def compare_model(case, r, ms):
 SCORES = [0.0, 1.0, 1.0, 0.0, 0.5, 0.25, 0.75, 0.9, 0.3]
 THRESHOLDS = [0.5, 0.5, 0.5, 0.25, 0.75, 0.9, 0.3, 0.99, 0.01]
 ROUNDS = [None, None, 0.1, 0.5, 1.0, 2.0, 0.25]
+# boundary values of the public arguments (int and float spellings), values needing more than 6 decimals, scores next to a threshold
+SCORES_X = SCORES + [0.7500001, 1e-07, 0.9999999]
+THRESHOLDS_X = [0, 0.0, 1, 1.0, 0.7500001, 1e-07, 0.123456789]
+ROUNDS_X = [1, 2, 0.05, 0.125, 5.0, 10, 0.001, 0.3]
+SRC_VARIANTS = {2: [["tb", "ta"], ["Z", "a"], ["left_table", "R_table"]], 3: [["tb", "tc", "ta"], ["Z", "a", "B"], ["t3", "t1", "t2"]]}
+STR_LABELS = {0: "", 1: "A", 2: "a", 3: "B", 7: "only"}
+OMITTABLE = ["threshold", "round", "opt", "err_threshold", "err_flags"]
+SESSION_OPS = ["predict", "predict_thr", "other_args", "errors", "chart", "tf"]
+CHART_TYPES = ["roc", "precision_recall", "accuracy", "threshold_selection"]
+LABEL_RULE = ("eq", LABEL, LABEL)
+
+
+def apply_omit(case, names):
+    """The named arguments are not passed: the documented defaults are what the oracle then expects."""
+    names = [n for n in names if n != "opt" or case["mode"] == "column"]
+    for n in names:
+        if n == "threshold":
+            case["threshold"] = 0.5
+        elif n == "round":
+            case["round"] = 0.1
+        elif n == "opt":
+            case["opt"] = True
+        elif n == "err_threshold":
+            case["err_threshold"] = 0.5
+        elif n == "err_flags":
+            case["err_fp"], case["err_fn"] = True, True
+    case["omit"] = sorted(names)
 
 
 def gen_case(rng: random.Random, force: dict | None = None):
     force = force or {}
+
+    def pick(name, sampler):
+        return force[name] if name in force else sampler()
+
+    def maybe(p, sampler, default=None):
+        return sampler() if rng.random() < p else default
+
     engine = force.get("engine") or rng.choice(["duckdb", "duckdb", "sqlite"])
     k = force.get("k") or rng.choice([1, 1, 2, 3])
     link_type = "dedupe_only" if k == 1 else (force.get("link_type") or rng.choice(["link_only", "link_and_dedupe"]))
@@ -432,35 +718,110 @@ def gen_case(rng: random.Random, force: dict | None = None):
     for t in tables:
         for row in t:
             row[LABEL] = rng.choice([None, 0, 0, 1, 1, 2, 3])
+    if pick("empty_strings", lambda: rng.random() < 0.1):
+        for t in tables:
+            for row in t:
+                for col in ("a", "b"):
+                    if row[col] is not None and rng.random() < 0.3:
+                        row[col] = ""  # the empty string is a value like any other (not NULL)
+    if pick("null_column", lambda: rng.random() < 0.04):
+        for t in tables:
+            for row in t:
+                row["a"] = None  # a column that is NULL in every record
+    if k > 1 and pick("empty_table", lambda: rng.random() < 0.06):
+        tables[rng.randrange(k)] = []  # one dataset of a link job has no rows
     cols = rng.sample(["a", "b"], rng.choice([1, 2, 2]))
     comparisons = [{"col": c, "m": round(rng.uniform(0.55, 0.95), 3), "u": round(rng.uniform(0.05, 0.45), 3)} for c in cols]
+    if pick("tf", lambda: rng.random() < 0.15):
+        for c in rng.sample(comparisons, rng.randint(1, len(comparisons))):
+            c["tf"] = True
     mode = force.get("mode") or rng.choice(["table", "column"])
     n_rules = force.get("n_rules", rng.choice([1, 1, 2, 0]) if mode == "table" else rng.choice([1, 1, 2]))
     asym = rng.random() < 0.3
     rules = [{"ast": bg.gen_rule(rng, depth=rng.choice([0, 1, 2]), asym_ok=asym), "top_unparenthesised": rng.random() < 0.5} for _ in range(n_rules)]
+    if pick("label_rule", lambda: rng.random() < 0.06):
+        # a model rule blocks on the label column itself (in column mode the added label rule then finds nothing new)
+        rules.insert(rng.randint(0, len(rules)), {"ast": LABEL_RULE if rng.random() < 0.6 else ("and", LABEL_RULE, ("eq", "a", "a")), "top_unparenthesised": False})
+    for ru in rules:
+        form = pick("rule_form", lambda: maybe(0.25, lambda: rng.choice(["dict", "salted", "block_on"])))
+        # salting is a DuckDB / Spark feature (C01 generates it for DuckDB only: SQLite's random() is a 64-bit integer, no partition matches)
+        if form and (form != "block_on" or conj_columns(ru["ast"])) and (form != "salted" or engine == "duckdb"):
+            ru["form"] = form
+    x = rng.random() < 0.3  # boundary / long-decimal argument values
     case = {"engine": engine, "link_type": link_type, "tables": tables, "idtype": idtype, "comparisons": comparisons, "prior": rng.choice([0.02, 0.1, 0.3, 0.5]),
-            "rules": rules, "mode": mode, "threshold": rng.choice(THRESHOLDS), "round": rng.choice(ROUNDS), "opt": True if mode == "table" else rng.random() < 0.6,
-            "err_threshold": rng.choice(THRESHOLDS), "shuffle": rng.randrange(1 << 30), "tag": force.get("tag", "random"), "labels": []}
+            "rules": rules, "mode": mode, "threshold": pick("threshold", lambda: rng.choice(THRESHOLDS_X if x and rng.random() < 0.6 else THRESHOLDS)),
+            "round": pick("round", lambda: rng.choice(ROUNDS_X if x and rng.random() < 0.6 else ROUNDS)), "opt": True if mode == "table" else rng.random() < 0.6,
+            "err_threshold": pick("err_threshold", lambda: rng.choice(THRESHOLDS_X if x and rng.random() < 0.5 else THRESHOLDS)), "shuffle": rng.randrange(1 << 30),
+            "tag": force.get("tag", "random"), "labels": []}
     case["err_fp"], case["err_fn"] = rng.choice([(True, True), (True, True), (True, False), (False, True)])
+    # -- input layout and forms
+    if k > 1:
+        src = pick("src", lambda: maybe(0.25, lambda: rng.choice(SRC_VARIANTS[k])))
+        if src:
+            case["src"] = list(src)
+        if pick("preconcat", lambda: rng.random() < 0.15):
+            case["layout"] = "preconcat"
+        if pick("sdcol", lambda: rng.random() < 0.08):
+            case["sdcol"] = "src_ds"
+    if pick("idcol", lambda: rng.random() < 0.15):
+        case["idcol"] = "rec_id"
+    if pick("names", lambda: rng.random() < 0.15):
+        case["input_form"] = "names"
+    if pick("colperm", lambda: rng.random() < 0.25):
+        case["colperm"] = rng.randrange(1 << 20)
+    # -- settings options that must not matter
+    if pick("retain_inter", lambda: rng.random() < 0.12):
+        case["retain_inter"] = True
+    if mode == "column" and pick("retain_matching_off", lambda: rng.random() < 0.06):
+        case["retain_matching"] = False
+    rc = pick("retain_cols", lambda: maybe(0.2, lambda: rng.choice([[LABEL], ["c", LABEL], ["c"], []])))
+    if rc is not None:
+        case["retain_cols"] = list(rc)
+    if pick("label_str", lambda: rng.random() < 0.2):
+        case["label_dtype"] = "str"
+        for t in tables:
+            for row in t:
+                row[LABEL] = None if row[LABEL] is None else STR_LABELS[row[LABEL]]
     if mode == "table":
         pairs = admissible_pairs(case)
         rng.shuffle(pairs)
-        tix = {al: i for i, al in enumerate(ALIASES)}
+        tix = {al: i for i, al in enumerate(src_names(case))}
         binary = rng.random() < 0.4
+        scores = SCORES_X if x and rng.random() < 0.6 else SCORES
         for a, b in pairs[: rng.randint(1, min(15, len(pairs)))] if pairs else []:
             if rng.random() < 0.5:
                 a, b = b, a  # either id orientation
-            s = rng.choice([0.0, 1.0]) if binary else rng.choice(SCORES)
+            s = rng.choice([0.0, 1.0]) if binary else rng.choice(scores)
             case["labels"].append([[tix[a["source_dataset"]], a["unique_id"]], [tix[b["source_dataset"]], b["unique_id"]], s])
         if force.get("dangling") and case["labels"]:
             t0, u0 = case["labels"][0][0]
             case["labels"].append([[t0, u0], [t0, "nope" if idtype == "str" else 99], 1.0])
+        if pick("no_labels", lambda: rng.random() < 0.02):
+            case["labels"] = []
+        lf = pick("label_form", lambda: rng.choice(["sdf", "sdf", "physical_name", "named", "db_native"]))
+        if lf != "sdf":
+            case["label_form"] = lf
+        lc = pick("label_cols", lambda: rng.choice(["canonical", "canonical", "reordered", "extra", "with_sd"]))
+        if lc != "canonical" and (lc != "with_sd" or k == 1):
+            case["label_cols"] = lc
+        if binary and pick("score_int", lambda: rng.random() < 0.4):
+            case["score_dtype"] = "int"
+    om = pick("omit", lambda: maybe(0.15, lambda: rng.sample(OMITTABLE, rng.randint(1, len(OMITTABLE)))))
+    if om:
+        apply_omit(case, om)
+    sess = pick("session", lambda: maybe(0.12, lambda: {"pre": rng.sample(SESSION_OPS, rng.randint(0, 3)), "reregister": rng.random() < 0.5, "chart_type": rng.choice(CHART_TYPES)}))
+    if sess:
+        sess = dict(sess)
+        # replacing a table under its name is something Splink can only see when it is done through Splink
+        sess["reregister"] = bool(sess.get("reregister")) and mode == "table" and case.get("label_form", "sdf") in ("sdf", "named", "physical_name") and bool(case["labels"])
+        case["session"] = sess
     return case
 
 
 def family_cases(rng: random.Random):
     """Adversarial families: every link type x mode x engine, all-positive / all-negative labels, every pair missed by blocking,
-    labels that name no record, 3-table jobs, a single label, all labels NULL."""
+    labels that name no record, 3-table jobs, a single label, all labels NULL; boundary arguments, omitted arguments, input layouts and
+    forms, labels-table forms, settings options, rule forms, sessions on one linker."""
     out = []
     for engine in ("duckdb", "sqlite"):
         for mode in ("table", "column"):
@@ -474,12 +835,12 @@ def family_cases(rng: random.Random):
     for l in c["labels"]:
         l[2] = 0.0
     out.append(c)
-    c = gen_case(rng, {"mode": "table", "tag": "single-label"})
+    c = gen_case(rng, {"mode": "table", "tag": "single-label", "no_labels": False})
     c["labels"] = c["labels"][:1]
     out.append(c)
-    out.append(gen_case(rng, {"mode": "table", "dangling": True, "tag": "dangling-label"}))
+    out.append(gen_case(rng, {"mode": "table", "dangling": True, "tag": "dangling-label", "no_labels": False}))
     for mode in ("table", "column"):
-        c = gen_case(rng, {"mode": mode, "tag": "blocking-misses-everything"})
+        c = gen_case(rng, {"mode": mode, "tag": "blocking-misses-everything", "label_rule": False})
         c["rules"] = [{"ast": ("lit", "l", "a", "no-such-value"), "top_unparenthesised": False}]
         out.append(c)
         c = gen_case(rng, {"mode": mode, "tag": "blocking-finds-everything"})
@@ -491,17 +852,68 @@ def family_cases(rng: random.Random):
             row[LABEL] = None
     out.append(c)
     c = gen_case(rng, {"mode": "column", "tag": "one-cluster"})
+    one = "only" if c.get("label_dtype") == "str" else 7
     for t in c["tables"]:
         for row in t:
-            row[LABEL] = 7
+            row[LABEL] = one
     out.append(c)
-    c = gen_case(rng, {"mode": "column", "tag": "singleton-labels"})
+    c = gen_case(rng, {"mode": "column", "tag": "singleton-labels", "label_str": False})
     n = 0
     for t in c["tables"]:
         for row in t:
             row[LABEL] = n
             n += 1
     out.append(c)
+    # ---- families added by the generator audit
+    engines = itertools.cycle(["duckdb", "sqlite"])
+    modes = ("table", "column")
+    for t in (0, 0.0, 1, 1.0):
+        for mode in modes:
+            out.append(gen_case(rng, {"engine": next(engines), "mode": mode, "threshold": t, "err_threshold": t, "omit": None, "tag": "boundary-threshold"}))
+    for rnd in ROUNDS_X:
+        out.append(gen_case(rng, {"engine": next(engines), "round": rnd, "omit": None, "tag": "round-values"}))
+    for engine in ("duckdb", "sqlite"):
+        for mode in modes:
+            out.append(gen_case(rng, {"engine": engine, "mode": mode, "omit": list(OMITTABLE), "tag": "arguments-omitted"}))
+            out.append(gen_case(rng, {"engine": engine, "mode": mode, "k": 2, "idcol": True, "sdcol": True, "tag": "id-columns-renamed"}))
+            out.append(gen_case(rng, {"engine": engine, "mode": mode, "names": True, "tag": "inputs-by-table-name"}))
+            out.append(gen_case(rng, {"engine": engine, "mode": mode, "tf": True, "tag": "term-frequency-adjusted"}))
+    for mode in modes:
+        for k, lt in ((2, "link_only"), (2, "link_and_dedupe"), (3, "link_only"), (3, "link_and_dedupe")):
+            out.append(gen_case(rng, {"engine": next(engines), "mode": mode, "k": k, "link_type": lt, "preconcat": True, "tag": "one-preconcatenated-input"}))
+        for k in (2, 3):
+            for src in SRC_VARIANTS[k][:2]:
+                out.append(gen_case(rng, {"engine": next(engines), "mode": mode, "k": k, "src": src, "tag": "dataset-names-unsorted"}))
+        for k, lt in ((3, "link_only"), (3, "link_and_dedupe"), (2, "link_and_dedupe"), (2, "link_only")):
+            out.append(gen_case(rng, {"engine": next(engines), "mode": mode, "k": k, "link_type": lt, "empty_table": True, "sdcol": False, "tag": "empty-input-table"}))
+        out.append(gen_case(rng, {"engine": next(engines), "mode": mode, "retain_inter": True, "retain_cols": [LABEL], "tag": "retain-options"}))
+        out.append(gen_case(rng, {"engine": next(engines), "mode": mode, "retain_inter": True, "retain_cols": ["c", LABEL], "retain_matching_off": True, "tag": "retain-options"}))
+        for form in ("dict", "salted", "block_on"):
+            c = gen_case(rng, {"engine": next(engines), "mode": mode, "rule_form": form, "n_rules": 2, "tag": "rule-forms"})
+            if form == "block_on":
+                c["rules"][0] = {"ast": ("and", ("eq", "a", "a"), ("eq", "c", "c")), "top_unparenthesised": False, "form": "block_on"}
+            out.append(c)
+        for _ in range(2):
+            out.append(gen_case(rng, {"engine": next(engines), "mode": mode, "label_rule": True, "tag": "rule-on-the-label-column"}))
+        out.append(gen_case(rng, {"engine": next(engines), "mode": mode, "empty_strings": True, "tag": "empty-string-values"}))
+        out.append(gen_case(rng, {"engine": next(engines), "mode": mode, "null_column": True, "tag": "all-null-column"}))
+    for engine in ("duckdb", "sqlite"):
+        out.append(gen_case(rng, {"engine": engine, "mode": "column", "label_str": True, "tag": "string-labels"}))
+        c = gen_case(rng, {"engine": engine, "mode": "column", "label_str": True, "tag": "string-labels"})
+        for t in c["tables"]:
+            for row in t:
+                row[LABEL] = rng.choice([None, "", "", " "])  # empty strings are labels like any other
+        out.append(c)
+        out.append(gen_case(rng, {"engine": engine, "mode": "table", "no_labels": True, "session": None, "tag": "empty-labels-table"}))
+        for lf, lc in (("sdf", "extra"), ("physical_name", "reordered"), ("named", "extra"), ("db_native", "reordered"), ("named", "with_sd"), ("db_native", "canonical")):
+            out.append(gen_case(rng, {"engine": engine, "mode": "table", "k": 1 if lc == "with_sd" else rng.choice([1, 2, 3]), "label_form": lf, "label_cols": lc, "score_int": True, "no_labels": False, "tag": "labels-table-forms"}))
+        # sessions: every call on ONE linker; a labels table replaced under its name between two identical calls
+        for lf in ("named", "sdf"):
+            out.append(gen_case(rng, {"engine": engine, "mode": "table", "label_form": lf, "no_labels": False, "session": {"pre": [], "reregister": True}, "tag": "session-labels-replaced"}))
+            out.append(gen_case(rng, {"engine": engine, "mode": "table", "label_form": lf, "no_labels": False, "session": {"pre": ["errors", "other_args"], "reregister": True}, "tag": "session-labels-replaced"}))
+        for mode in modes:
+            for n, op in enumerate(SESSION_OPS):
+                out.append(gen_case(rng, {"engine": engine, "mode": mode, "no_labels": False, "session": {"pre": [op], "reregister": False, "chart_type": CHART_TYPES[(n + (mode == "table") + 2 * (engine == "sqlite")) % 4]}, "tag": "session-one-linker"}))
     return out
 
 
@@ -515,8 +927,14 @@ def normalise(case):
 
 
 # --------------------------------------------------------------------------- compare
+OPTIONAL_KEYS = ("idtype", "shuffle", "src", "layout", "idcol", "sdcol", "input_form", "colperm", "retain_inter", "retain_matching", "retain_cols", "label_dtype",
+                 "label_form", "label_cols", "score_dtype", "omit", "session")
+
+
 def canon(c):
-    return {k: c[k] for k in ("tables", "comparisons", "prior", "rules", "mode", "labels", "threshold", "round", "opt", "err_threshold", "err_fp", "err_fn", "link_type", "engine")}
+    d = {k: c[k] for k in ("tables", "comparisons", "prior", "rules", "mode", "labels", "threshold", "round", "opt", "err_threshold", "err_fp", "err_fn", "link_type", "engine")}
+    d.update({k: c[k] for k in OPTIONAL_KEYS if c.get(k) is not None})
+    return d
 
 
 def compare(ctx, cases, drv):
@@ -547,15 +965,52 @@ def compare(ctx, cases, drv):
         ctx.count("some_pair_missed_by_blocking", any(q["scored"] and not q["found"] for q in pairs))
         if c["mode"] == "table":
             multi_ = len(c["tables"]) > 1
-            ck_ = lambda e: bg.composite_key({"source_dataset": ALIASES[e[0]], "unique_id": e[1]}, multi_)
+            ck_ = lambda e: bg.composite_key({"source_dataset": src_names(c)[e[0]], "unique_id": e[1]}, multi_)
             ctx.count("labels_reversed_orientation", any(ck_(l[0]) > ck_(l[1]) for l in c["labels"]))
             ctx.count("fractional_scores", any(l[2] not in (0.0, 1.0) for l in c["labels"]))
+            ctx.count("labels_table_passed_as", {"sdf": "SplinkDataFrame of register_labels_table", "physical_name": "its physical name (str)", "named": "name of a table registered with register_table",
+                                                 "db_native": "name of a table created in the database without Splink"}[c.get("label_form") or "sdf"])
+            ctx.count("labels_table_columns", {"canonical": "documented order", "reordered": "shuffled order", "extra": "shuffled + extra single and _l/_r columns",
+                                               "with_sd": "dedupe job, source dataset columns supplied"}[c.get("label_cols") or "canonical"])
+            ctx.count("clerical_match_score_dtype", "int" if c.get("score_dtype") == "int" and all(l[2] in (0.0, 1.0) for l in c["labels"]) else "float")
+            ctx.count("n_labels", min(len(c["labels"]), 15) // 5 * 5 if c["labels"] else "none (empty labels table)")
+            ctx.count("scores_beyond_6_decimals", any(l[2] in (0.7500001, 1e-07, 0.9999999) for l in c["labels"]))
         else:
             ctx.count("null_labels", any(row[LABEL] is None for t in c["tables"] for row in t))
+            ctx.count("label_column_dtype", label_type(c))
+            ctx.count("empty_string_label", any(row[LABEL] == "" for t in c["tables"] for row in t))
+            ctx.count("retain_matching_columns", c.get("retain_matching") is not False)
+        spell = lambda v: f"{type(v).__name__} {v!r}"
+        ctx.count("boundary_threshold_actual", spell(c["threshold"]) if c["threshold"] in (0, 1) else "interior")
+        ctx.count("boundary_error_threshold", spell(c["err_threshold"]) if c["err_threshold"] in (0, 1) else "interior")
+        ctx.count("threshold_beyond_6_decimals", c["threshold"] in (0.7500001, 1e-07, 0.123456789) or c["err_threshold"] in (0.7500001, 1e-07, 0.123456789))
+        ctx.count("rounding_spelling", "None" if c["round"] is None else type(c["round"]).__name__)
+        for nm in c.get("omit") or ["none (all passed explicitly)"]:
+            ctx.count("argument_omitted_default_applies", nm)
+        ctx.count("input_layout", ("one pre-concatenated table with its own source dataset column" if c.get("layout") == "preconcat" else "one frame per dataset")
+                  + (", given as names of registered tables" if c.get("input_form") == "names" else ""))
+        ctx.count("dataset_names", "default (sorted)" if not c.get("src") else "unsorted / mixed case")
+        ctx.count("unique_id_column_name", idcol(c)); ctx.count("source_dataset_column_name", sdcol(c) if len(c["tables"]) > 1 else "n/a")
+        ctx.count("columns_in_different_order_per_table", c.get("colperm") is not None)
+        ctx.count("empty_input_table", any(not t for t in c["tables"]))
+        ctx.count("empty_string_values", any(row[col] == "" for t in c["tables"] for row in t for col in ("a", "b")))
+        ctx.count("comparison_column_all_null", any(all(row[x["col"]] is None for t in c["tables"] for row in t) for x in c["comparisons"]))
+        ctx.count("term_frequency_adjustments", any(x.get("tf") for x in c["comparisons"]))
+        ctx.count("retain_intermediate_calculation_columns", bool(c.get("retain_inter")))
+        ctx.count("additional_columns_to_retain", "unset" if c.get("retain_cols") is None else ",".join(c["retain_cols"]) or "[]")
+        for ru in c["rules"]:
+            ctx.count("rule_form", ru.get("form") or "str")
+        ctx.count("rule_on_the_label_column", any(LABEL in bg.columns_of(ru["ast"]) for ru in c["rules"]))
+        se = c.get("session")
+        ctx.count("session", "fresh linker per call" if not se else "every call on one linker, the table asked for twice" + (", labels table replaced under its name first" if se.get("reregister") else ""))
+        for op in (se or {}).get("pre") or []:
+            ctx.count("session_earlier_call", op)
+        if se and "chart" in (se.get("pre") or []):
+            ctx.count("chart_output_type", se.get("chart_type") or "roc")
         if core.impl_error(r):
             ctx.count("impl_error", r["__error__"])
             ctx.case(canon(c), False)
-            problems.append((c, "real code raised", f"{r['__error__']}: {r['text'][:300]}", True))
+            problems.append((c, error_class(r), f"{r['__error__']}: {r['text'][:300]}", True))
             continue
         rows = r["truth"]
         ties = n_scored - len({round(q["w"], 9) for q in pairs if q["scored"]})
@@ -584,12 +1039,28 @@ def compare(ctx, cases, drv):
     return problems
 
 
+def error_class(r):
+    """'real code raised: <exception>: <what the engine / the code said>' with table-name hashes and numbers blanked, so that different
+    errors are reported (and shrunk) separately."""
+    import re
+
+    t = r.get("text", "")
+    t = t.split("Error was:")[-1].strip() if "Error was:" in t else t.strip()
+    line = next((x.strip() for x in t.splitlines() if x.strip()), "")
+    m = re.search(r'Referenced column "(\w+)" not found|no such column: (\w+)', line)  # DuckDB | SQLite: the same class on both engines
+    if m:
+        line = f"column {m.group(1) or m.group(2)} not found"
+    line = re.sub(r"_[0-9a-f]{9}\b", "_#", line)
+    line = re.sub(r"\d+", "#", line)
+    return f"real code raised: {r['__error__']}: {line[:110]}"
+
+
 def fails_class(cls):
     def f(case):
         case = normalise(case)
         r = run_impl_safe(case)
         if "__error__" in r:
-            return cls == "real code raised"
+            return error_class(r) == cls
         return any(k == cls for k, _ in verdict(case, r))
 
     return f
@@ -597,7 +1068,37 @@ def fails_class(cls):
 
 def shrink(case, still_fails):
     cur = json.loads(json.dumps(case))
-    budget = 45
+    budget = 60
+    # options first: drop every optional setting / form the failure does not need
+    for k in [k for k in OPTIONAL_KEYS if k not in ("idtype", "shuffle")]:
+        if cur.get(k) is None or budget <= 0:
+            continue
+        cand = json.loads(json.dumps(cur))
+        del cand[k]
+        if k == "label_dtype":  # string labels back to integer codes
+            codes = label_codes(cur)
+            for t in cand["tables"]:
+                for row in t:
+                    row[LABEL] = None if row[LABEL] is None else codes[row[LABEL]]
+        budget -= 1
+        if still_fails(cand):
+            cur = cand
+    for i, ru in enumerate(cur["rules"]):
+        if ru.get("form") and budget > 0:
+            cand = json.loads(json.dumps(cur))
+            del cand["rules"][i]["form"]
+            budget -= 1
+            if still_fails(cand):
+                cur = cand
+    for c_ in cur["comparisons"]:
+        if c_.get("tf") and budget > 0:
+            cand = json.loads(json.dumps(cur))
+            for x in cand["comparisons"]:
+                x.pop("tf", None)
+            budget -= 1
+            if still_fails(cand):
+                cur = cand
+            break
     changed = True
     while changed and budget > 0:
         changed = False
@@ -644,6 +1145,14 @@ def run(ctx: core.Ctx):
         "(option positives_not_captured... on/off) x threshold in {.01,.25,.3,.5,.75,.9,.99} (equal to scores) x match_weight_round_to_nearest in {None,.1,.25,.5,1,2} x "
         "include_false_positives/negatives; all link types; duckdb+sqlite; + adversarial families (grid of engine x mode x link type, all-positive, all-negative, single label, "
         "label naming no record, blocking finds nothing / everything, all labels NULL, one cluster, singleton labels). "
+        "Generator audit: boundary arguments (thresholds 0 / 0.0 / 1 / 1.0, values with > 6 decimals, scores next to a threshold, rounding 1 / 2 as int, .001 ... 10), "
+        "arguments omitted (documented defaults expected), input layouts (one pre-concatenated table with its own source dataset column, inputs given as names of "
+        "registered tables with other aliases, unsorted / mixed-case dataset names, per-table column order, renamed unique id / source dataset columns, an empty input "
+        "table, empty strings, an all-NULL column), labels table passed as SplinkDataFrame / physical name / register_table name / table created without Splink, with "
+        "shuffled / extra / superfluous source dataset columns, integer scores, no rows; string label column incl. ''; retain_* settings, additional_columns_to_retain "
+        "with the label column, term-frequency adjusted comparisons (oracle m/tf), rules as dict / salted (DuckDB) / block_on / on the label column; sessions: every call "
+        "on ONE linker after predict / other arguments / prediction errors / a chart (its records = the table) / compute_tf_table, the table asked for twice, the labels "
+        "table replaced under its name (overwrite=True) between identical calls. "
         "non-trivial = table has >= 2 rows and some scores tie; distinct = hash of the whole case."
     )
     ctx.assumptions = [
@@ -653,6 +1162,9 @@ def run(ctx: core.Ctx):
         "prediction-error membership is not checked for pairs whose score equals the threshold or whose probability is within 1e-9 of it",
         "cast(x as float) is a 32-bit float on DuckDB and a double on SQLite; round() rounds half away from zero on both",
         "label-column mode with no blocking rule at all is generated only in the labels-table mode (see report: column mode then scores nothing as found)",
+        "salted rules are generated on DuckDB only (as in C01: SQLite's random() is a 64-bit integer, a salted rule finds no pair there)",
+        "a labels table replaced behind Splink's back (created in the database without Splink) is not replaced within a session; replacement goes through register_table / register_labels_table(overwrite=True)",
+        "term-frequency adjusted exact match: Bayes factor m / tf(value), tf = share of the value among the non-NULL values of all input records",
     ]
     from harness.props import c15_sql
 
@@ -686,7 +1198,9 @@ def run(ctx: core.Ctx):
         detail = next((d for k, d in verdict(small, rr) if k == cls), w) if "truth" in rr else f"{rr['__error__']}: {rr['text'][:300]}"
         ctx.violation(f"real output violates C15: {cls} ({small['mode']} mode, {small['engine']})",
                       {"case": small, "rules_sql": [rule_sql(x) for x in small["rules"]], "observed": rr, "detail": detail},
-                      kind="concrete", match_info={"failure": cls, "mode": small["mode"], "engine": small["engine"]})
+                      kind="concrete", match_info={"failure": cls, "mode": small["mode"], "engine": small["engine"], "threshold_actual": small["threshold"],
+                                                   "source_dataset_column_name": sdcol(small), "retain_matching_columns": small.get("retain_matching") is not False,
+                                                   "empty_input_table": any(not t for t in small["tables"])})
     # a concrete violation absorbed by a known finding must not hide a broken proof or correspondence
     if not any(v["kind"] == "concrete" for v in ctx.violations):
         if broken:
